@@ -210,7 +210,15 @@ EvCtor == /\ Ev("ctor")
                     <<l, "ctor", c>>)
           /\ Stateless
 
-Next == EvHNew \/ EvOp \/ EvCtor \/ EvParse \/ EvFmt \/ EvNorm \/ EvDual \/ EvOrd \/ EvSort \/ EvDualOrd
+(* the position array's initialiser: in contract (at most CAP1 symbols, all below 64) it succeeds and
+   the array is valid with that length; out of contract it panics -- a call that RETURNS never
+   leaves a corrupted array *)
+EvPCtor == /\ Ev("pctor")
+           /\ Expect((E.len <= CAP1 /\ E.bad_at = -1) => (E.res = "ok" /\ E.valid = TRUE /\ E.len_after = E.len), <<l, "pctor-in-contract">>)
+           /\ Expect(E.res = "ok" => E.valid = TRUE, <<l, "pctor-returned-a-corrupted-array">>)
+           /\ Stateless
+
+Next == EvPCtor \/ EvHNew \/ EvOp \/ EvCtor \/ EvParse \/ EvFmt \/ EvNorm \/ EvDual \/ EvOrd \/ EvSort \/ EvDualOrd
 Spec == Init /\ [][Next]_vars
 Progress == Mark(l)
 =============================================================================
